@@ -563,7 +563,8 @@ def write_evidence(engine, prop, tier, base_seed, agg, traces, all_fps,
             'fault_kinds_fired': agg['faults'],
             'reach_probes': agg['probes'],
             'probes_stuck_at_zero': sorted(
-                k for k, v in agg['probes'].items() if v == 0),
+                k for k, v in agg['probes'].items()
+                if v == 0 and k not in engine.irrelevant_probes(prop)),
             'extra_counters': agg['extra'],
             'violation_signatures_seen': agg['sig_counts'],
             'known_finding_signatures_matched': sorted(known_sigs),
